@@ -187,7 +187,22 @@ pub fn check_case(case: &Case) -> Vec<(String, String)> {
     if self_match {
         // (3) order of query parameters is irrelevant
         if distinct_keys && case.params.len() >= 2 {
-            for p in permutations(case.params.len()) {
+            let n = case.params.len();
+            // every permutation of short queries; for long ones (count thresholds) reversal, rotations and an interleaving
+            let orders: Vec<Vec<usize>> = if n <= 4 {
+                permutations(n)
+            } else {
+                let id: Vec<usize> = (0..n).collect();
+                let mut v = vec![id.iter().rev().copied().collect::<Vec<usize>>()];
+                for k in [1usize, n / 2, 63.min(n - 1)] {
+                    let mut r = id.clone();
+                    r.rotate_left(k);
+                    v.push(r);
+                }
+                v.push((0..n).map(|i| if i % 2 == 0 { i / 2 } else { n - 1 - i / 2 }).collect());
+                v
+            };
+            for p in orders {
                 let permuted: Vec<String> = p.iter().map(|i| case.params[*i].clone()).collect();
                 let up = url(&case.path, &permuted);
                 if !matches(&router, &rc, &up) {
@@ -354,6 +369,16 @@ pub fn run(tier: Tier) -> i32 {
                     }
                 }
             }
+        }
+    }
+    // many parameters (count thresholds): 70 / 130 / 300 distinct keys, with and without a marketing key among them
+    for flags in [0u32, 4, 8, 12, 24, 28] {
+        for n in [70usize, 130, 300] {
+            let params: Vec<String> = (0..n).map(|i| format!("p{i:03}=v{i}")).collect();
+            cases.push(Case { flags, marketing_set: 0, path: "/a".to_string(), params: params.clone(), unused_marker: false });
+            let mut upper = params.clone();
+            upper[n / 2] = "Q=Z".to_string();
+            cases.push(Case { flags, marketing_set: 0, path: "/A".to_string(), params: upper, unused_marker: false });
         }
     }
     let distinct_norm = DistinctSet::new();
